@@ -2,6 +2,7 @@
 From Coq Require Import List NArith Bool.
 Import ListNotations.
 From GB Require Import Decimal Tree Reach Sort Read World Append.
+From GB Require Accept ClockWrap.
 Local Open Scope N_scope.
 
 (* clocks and format version survive the decimal text form, for every 64-bit value *)
@@ -31,3 +32,64 @@ Theorem C04_commit_read w r h id au ops w' old : inv w -> (budget w + 2 <= jump_
   read (st w') (length (st w)) = Some (old ++ ops).
 Proof. exact (edit_reads_back w r h id au ops w' old). Qed.
 Print Assumptions C04_commit_read.
+
+(* ---- what the write side must refuse, or clean, for the statement to hold (Accept.v); the pinned
+        behaviours are refuted by concrete witnesses ---- *)
+
+(* a text that text.Safe / text.SafeOneLine accept (with the UTF-8 check) is read back byte for byte after
+   json.Marshal / json.Unmarshal ... *)
+Theorem C04_safe_text_preserved l : Accept.safe l = true \/ Accept.safe_line l = true -> Accept.stored l = l.
+Proof. exact (Accept.safe_stored l). Qed.
+Print Assumptions C04_safe_text_preserved.
+
+(* ... and valid UTF-8 is exactly what is preserved: the check refuses nothing that could have been stored *)
+Theorem C04_preserved_iff_valid l : Accept.stored l = l <-> Accept.valid l = true.
+Proof. exact (Accept.preserved_iff_valid l). Qed.
+Print Assumptions C04_preserved_iff_valid.
+
+(* pinned Safe/SafeOneLine range over the string: an invalid byte looks like U+FFFD, is accepted, and is stored as
+   another text; two accepted texts are even stored as the same one *)
+Theorem C04_pinned_safe_refuted : exists l, Accept.pinned_safe l = true /\ Accept.pinned_safe_line l = true /\ Accept.stored l <> l.
+Proof. exact Accept.pinned_safe_refuted. Qed.
+Print Assumptions C04_pinned_safe_refuted.
+Theorem C04_pinned_safe_collision : exists a b, a <> b /\ Accept.pinned_safe_line a = true /\ Accept.pinned_safe_line b = true /\ Accept.stored a = Accept.stored b.
+Proof. exact Accept.pinned_safe_collision. Qed.
+Print Assumptions C04_pinned_safe_collision.
+
+(* Commit as pinned only applies dag.Entity.Validate: it accepts bugs every reader refuses *)
+Theorem C04_pinned_shape_refuted : exists ks, Accept.pinned_shape_ok ks = true /\ Accept.shape_ok ks = false.
+Proof. exact Accept.pinned_shape_refuted. Qed.
+Print Assumptions C04_pinned_shape_refuted.
+
+(* with Commit moving the reference only from where the object left it, whatever objects of an entity are loaded
+   and commit in whatever order, what is read at the reference is exactly the operations of all the accepted
+   commits, in the order they were accepted *)
+Theorem C04_commits_all_read evs : let '(s, log, _) := Accept.hrun true Accept.hs0 evs in Accept.rread (Accept.h_ref s) = log.
+Proof. exact (Accept.cas_reads_all evs). Qed.
+Print Assumptions C04_commits_all_read.
+
+(* pinned: the reference is moved in any case, and an accepted operation is not read any more *)
+Theorem C04_stale_commit_refuted : exists evs, let '(s, log, _) := Accept.hrun false Accept.hs0 evs in
+  exists op, In op log /\ ~ In op (Accept.rread (Accept.h_ref s)).
+Proof. exact Accept.move_loses_refuted. Qed.
+Print Assumptions C04_stale_commit_refuted.
+
+(* a name cleaned the way git does is left as it is by go-git's decoder: the commit encoded again to verify its
+   signature is the commit that has been signed; and it has no character that ends a name or a header line *)
+Theorem C04_clean_name_survives l : Accept.gogit_name (Accept.clean l) = Accept.clean l /\ forall x, In x (Accept.clean l) -> Accept.forbidden x = false.
+Proof. exact (Accept.clean_name_survives l). Qed.
+Print Assumptions C04_clean_name_survives.
+Theorem C04_pinned_name_refuted : exists l, Accept.gogit_name (Accept.pinned_clean l) <> Accept.pinned_clean l.
+Proof. exact Accept.pinned_clean_refuted. Qed.
+Print Assumptions C04_pinned_name_refuted.
+
+(* finding C04-clock-jump (the F-clock of C05 seen from the write side): the edit time of a commit comes from the
+   namespace-wide clock; within the jump limit of its parent it is readable ... *)
+Theorem C04_commit_within_limit_readable c p : p <= c -> c - p < ClockWrap.jump_limit -> c + 1 < ClockWrap.wrap ->
+  ClockWrap.readable p (ClockWrap.child_edit c) = true.
+Proof. exact (ClockWrap.write_readable c p). Qed.
+Print Assumptions C04_commit_within_limit_readable.
+(* ... and once the clock has witnessed a peer further ahead, the commit Commit writes on an old bug is refused by read *)
+Theorem C04_commit_after_far_witness_refuted : exists c p v, p <= c /\ snd (ClockWrap.after_forged_root c p v) = false.
+Proof. exact ClockWrap.forged_jump_refuted. Qed.
+Print Assumptions C04_commit_after_far_witness_refuted.
